@@ -121,13 +121,15 @@ def setup(fstates, istates, hstates):
 
 
 def invariant(fs, index, hashmap):
-    """I : a hash-map entry that matches the current file means the index holds exactly that file's notes
+    """I : a hash-map entry H(T) means the index holds exactly the notes of T - WHATEVER the file holds now (the file is
+         the user's to edit between runs, so an invariant that mentions the file is not preserved by edits: a stale entry
+         H(T) next to an index of other notes turns into a missed edit the moment the file goes back to T);
+         the entry of a page whose notes still lack ZIDs never survives a step (the write-back refreshes it)
        I2: every indexed page has a hash-map entry (so a run can notice that its file disappeared)"""
     for name, h in hashmap.items():
-        text = fs.files.get("/z/" + name)
-        if text is not None and h == "H(" + text + ")":
-            if index.get(name) != bodies(text):
-                return False
+        text = h[2:-1]
+        if text == VN or index.get(name) != bodies(text):
+            return False
     for name in index:
         if name not in hashmap:
             return False
